@@ -160,7 +160,8 @@ check('C02', 'model_checking',
       'ShortcutOnlyIfUniform, OriginIsComputed, OriginIsCongruent, CopiedSourceNotGrounded on 1890 objects; the pre-repair variant gives a '
       'counterexample) and is bound code->spec: the plan of the real fill (hook) of every segmentation the program produces must equal the '
       'plan of the specification. With the REAL kernel the matrix of an object that was filled at another frequency before (radii crossing the '
-      'thin-wire limit) must equal that of a fresh object.',
+      'thin-wire limit) must equal that of a fresh object. The exact-kernel rule of spec/Topology.tla (ExactKernel, invariant '
+      'ConnectedOnlyIfJoined) is bound to Pulse_Container.matrix_geo_unconnected() on every configuration.',
       _sur + 'The arithmetic of the formulation is evaluated by harness/lattice.py in floating point (not by TLC); TLC supplies the discrete '
       'pulse table. Radius >= 1e-4 wavelength (every term goes through psi).',
       'TLC pulse tables (Topology.tla) + surrogate-kernel evaluation of the formulation vs the real matrix fill', 'DESIGN.md 4 C02, 1')
@@ -195,7 +196,10 @@ check('C06', 'exploration',
       'derives from them the map pulse currents -> physical joint currents. Every description is solved with the feed on the same physical '
       'joint; feed impedance, all physical joint currents, near field (E, H at four points) and the far-field pattern must agree with the '
       'reference description within the tolerance of the property (5e-4, condition-number rule). Mirror-symmetric V dipole: symmetric currents '
-      'for all orders / directions; tapered V dipole (unequal segments): all orders / directions agree.',
+      'for all orders / directions; tapered V dipole (unequal segments): all orders / directions agree. Besides the fixed list, seeded random '
+      'trees of 2..4 wires inside the domain (3 quick, 40 thorough). A deviation is attributed to the inherited exact-kernel rule (recorded '
+      'finding; TLC refutes ExactKernelFollowsGeometry on Topology.tla) only when both descriptions agree after being solved again with the '
+      'exact kernel between all pulses; descriptions outside the domain of the property are compared but not reported.',
       'Exploration level: the discrete part (which descriptions denote one structure, joint-current maps, invariants) by TLC, the numeric part is '
       'a comparison of implementation outputs. Structures are a fixed list inside the stated domain; measured deviations are 1e-10 .. 5e-7.',
       'TLC (TopologyOn.tla) joint-current maps per description + solved comparison across descriptions', 'DESIGN.md 4 C06, 3.2')
